@@ -1492,3 +1492,130 @@ Lemma witness_wide_dropped_by_fit_test :
   ranges_to_chunks w_isz (Some w_meas) [(w_wide_off, w_wide_len); (w_wide_off, 2 ^ 64 - 1)] [] = [] /\
   ranges_to_chunks w_isz None [(w_wide_off, w_wide_len); (w_wide_off, 2 ^ 64 - 1)] [] = [].
 Proof. vm_compute. split; reflexivity. Qed.
+
+(** * The set-level search: its results are minimal in the space the phases enumerate *)
+
+Lemma fold_min_le : forall t x, fold_left Z.min t x <= x /\ Forall (fun y => fold_left Z.min t x <= y) t.
+Proof.
+  induction t as [|a t IH]; intro x; cbn [fold_left].
+  - split; [lia|constructor].
+  - destruct (IH (Z.min x a)) as [H1 H2]. split; [lia|].
+    constructor; [lia|exact H2].
+Qed.
+
+Lemma min_of_le : forall l m, min_of l = Some m -> Forall (fun y => m <= y) l.
+Proof.
+  intros [|x t] m H; [discriminate|]. cbn [min_of] in H. injection H as <-.
+  destruct (fold_min_le t x) as [H1 H2]. constructor; assumption.
+Qed.
+
+Lemma argmins_spec : forall X (l : list (Z * X)) d x,
+  In (d, x) (argmins l) -> In (d, x) l /\ forall d' x', In (d', x') l -> d <= d'.
+Proof.
+  intros X l d x H. unfold argmins in H.
+  destruct (min_of (map fst l)) as [m|] eqn:E; [|contradiction].
+  apply filter_In in H. destruct H as [Hin Hm]. cbn [fst] in Hm. apply Z.eqb_eq in Hm. subst m.
+  split; [exact Hin|]. intros d' x' H'.
+  pose proof (min_of_le _ _ E) as F. rewrite Forall_forall in F.
+  apply (F d'). apply (in_map fst) in H'. exact H'.
+Qed.
+
+Lemma scored_In : forall es cs l d p,
+  In (d, p) (scored es cs l) <-> In p l /\ bm_dist es cs p = Some d.
+Proof.
+  intros es cs l d p. unfold scored. rewrite in_flat_map. split.
+  - intros [q [Hq H]]. destruct (bm_dist es cs q) as [dq|] eqn:E; [|contradiction].
+    destruct H as [H|[]]. injection H as <- <-. split; assumption.
+  - intros [Hp E]. exists p. split; [exact Hp|]. rewrite E. left. reflexivity.
+Qed.
+
+(** Every result of the search lies in the second-phase space around a first-phase optimum,
+    its reported distance is the distance of its bitmaps, and no candidate of that space has
+    a smaller one. *)
+Theorem search_result_optimal : forall es cs maxdist d p,
+  In (d, p) (search_results es cs maxdist) ->
+  exists d1 p1,
+    In (d1, p1) (argmins (scored es cs (phase1_cands es cs))) /\
+    In p (phase2_space es cs maxdist p1) /\
+    bm_dist es cs p = Some d /\
+    forall p' d', In p' (phase2_space es cs maxdist p1) -> bm_dist es cs p' = Some d' -> d <= d'.
+Proof.
+  intros es cs maxdist d p H. unfold search_results in H. apply in_flat_map in H.
+  destruct H as [[d1 p1] [H1 H2]]. cbn [snd] in H2.
+  apply argmins_spec in H2. destruct H2 as [Hin Hmin]. apply scored_In in Hin. destruct Hin as [Hs Hd].
+  exists d1, p1. split; [exact H1|]. split; [exact Hs|]. split; [exact Hd|].
+  intros p' d' Hp' Hd'. apply (Hmin d' p'). apply scored_In. split; assumption.
+Qed.
+
+(** the first phase alone: a first-phase optimum is a candidate of minimal distance *)
+Theorem search_phase1_optimal : forall es cs d1 p1,
+  In (d1, p1) (argmins (scored es cs (phase1_cands es cs))) ->
+  In p1 (phase1_cands es cs) /\ bm_dist es cs p1 = Some d1 /\
+  forall p' d', In p' (phase1_cands es cs) -> bm_dist es cs p' = Some d' -> d1 <= d'.
+Proof.
+  intros es cs d1 p1 H. apply argmins_spec in H. destruct H as [Hin Hmin].
+  apply scored_In in Hin. destruct Hin as [Hs Hd]. split; [exact Hs|]. split; [exact Hd|].
+  intros p' d' Hp' Hd'. apply (Hmin d' p'). apply scored_In. split; assumption.
+Qed.
+
+Lemma flips_length : forall base k x, In x (flips k base) -> length x = length base.
+Proof.
+  induction base as [|b t IH]; intros k x H; cbn [flips] in H.
+  - destruct k; [destruct H as [<-|[]]; reflexivity|contradiction].
+  - apply in_app_or in H. destruct H as [H|H].
+    + apply in_map_iff in H. destruct H as [y [<- Hy]]. cbn [length]. f_equal. exact (IH _ _ Hy).
+    + destruct k as [|k']; [contradiction|]. apply in_map_iff in H. destruct H as [y [<- Hy]].
+      cbn [length]. f_equal. exact (IH _ _ Hy).
+Qed.
+
+Lemma phase1_cands_lengths : forall es cs p,
+  In p (phase1_cands es cs) -> length (fst p) = length es /\ length (snd p) = length cs.
+Proof.
+  intros es cs p H. unfold phase1_cands in H.
+  destruct (amount_diff es cs =? 0).
+  - destruct H as [<-|[]]. cbn [fst snd]. split; apply all_false_length.
+  - destruct (amount_diff es cs <? 0).
+    + apply in_map_iff in H. destruct H as [m [<- Hm]]. cbn [fst snd]. split; [apply all_false_length|].
+      rewrite (flips_length _ _ _ Hm). apply all_false_length.
+    + apply in_map_iff in H. destruct H as [e [<- He]]. cbn [fst snd]. split; [|apply all_false_length].
+      rewrite (flips_length _ _ _ He). apply all_false_length.
+Qed.
+
+(** ... and every result is a pair of bitmaps of the right lengths that leaves equally many
+    events on both sides: what alignLogs needs (C13_conservation_any_balanced_bitmaps) *)
+Theorem search_result_balanced : forall es cs maxdist d p,
+  In (d, p) (search_results es cs maxdist) -> balanced es cs p.
+Proof.
+  intros es cs maxdist d p H. apply search_result_optimal in H.
+  destruct H as [d1 [p1 [H1 [H2 _]]]].
+  apply search_phase1_optimal in H1. destruct H1 as [H1 _].
+  apply phase1_cands_lengths in H1. destruct H1 as [L1 L2].
+  unfold phase2_space in H2. apply in_flat_map in H2. destruct H2 as [e [He H2]].
+  unfold flips_upto in He. apply in_flat_map in He. destruct He as [k [_ He]].
+  apply flips_length in He.
+  destruct (Z.of_nat (count_true e) - Z.of_nat (count_true (snd p1)) - amount_diff es cs <? 0); [contradiction|].
+  apply filter_In in H2. destruct H2 as [H2 Hb].
+  apply in_map_iff in H2. destruct H2 as [m [<- Hm]]. apply flips_length in Hm.
+  unfold balanced. cbn [fst snd] in *. split; [congruence|]. split; [congruence|].
+  unfold bm_balanced, amount_diff in Hb. cbn [fst snd] in Hb. apply Z.eqb_eq in Hb.
+  pose proof (count_true_le e). pose proof (count_true_le m). lia.
+Qed.
+
+(** the rule the metric implements: exactly the pairs that agree in neither type nor digest
+    cost more than leaving both events unpaired (two disabled entries, [2 * BIGN]) *)
+Theorem unrelated_pair_costs_more : forall c e, unrelated c e = true <-> 2 * BIGN < pair_cost c e.
+Proof.
+  intros c e. unfold unrelated, pair_cost, digests_equal, BIGN.
+  destruct (zlist_eqb (ev_digest_bytes e) (s_digest c)); destruct (ev_type e =? s_type c); cbn; split; intro; try lia; try discriminate; reflexivity.
+Qed.
+
+(** witnesses: the scripts of the shape "one entry deleted, another one replaced" on a boot
+    of three events - the first phase leaves out one simulated event, the second one adds the
+    replaced entry on both sides *)
+Definition w_s3 : list sim_ev := [mkSim 0 1 (w_dg 1); mkSim 1 2 (w_dg 2); mkSim 2 3 (w_dg 3)].
+Definition w_e3 : list event := [mkEv 0 1 [] (Some (mkDg 4 (w_dg 1))); mkEv 0 9 [] (Some (mkDg 4 (w_dg 7)))].
+
+Lemma witness_search_deleted_and_replaced :
+  search_results w_e3 w_s3 1 = [(3 * BIGN, ([false; true], [false; true; true])); (3 * BIGN, ([false; true], [false; true; true]))] /\
+  search_results w_e3 w_s3 0 = [(3 * BIGN + 1, ([false; false], [false; false; true])); (3 * BIGN + 1, ([false; false], [false; true; false]))].
+Proof. split; vm_compute; reflexivity. Qed.
